@@ -154,8 +154,9 @@ def stream_socket(c, name, stream, total):
 
     def recv(_i, args, kwargs):
         n = args[0]
-        if type(n) is not int:
-            raise TypeError('socket model: recv size must be a concrete int, got %r' % (n,))
+        if type(n) is not int:         # symbolic back end only: a request size that depends on stream content
+            from pyvc.core import OutOfSubset
+            raise OutOfSubset('socket model: recv size must be a concrete int, got %r' % (n,))
         if n <= 0:
             return c.snapshot('_chunk', '%s[0:0]' % stream)
         avail = total - st['pos']
